@@ -527,26 +527,88 @@ def _rejection(rep, prog):
     if any(len(v) != 1 for v in setn.values()):
         rep.add('REJECTION', 'single-delivery', where(fn), 'each output is assigned once', False, str({k: len(v) for k, v in setn.items()}))
         return
-    acc = None
-    for b in F.nodes(kind='branch'):
-        t = g.nodes[b.succ[0]]
-        if all(F.dominates(t, setn[o][0]) for o in outs) and g.preds()[t.id] == [b.id] and b.succ[0] != b.succ[1] \
-                and 'esum_max' in ir.fmt(b.stmt[1]):
-            acc = b
-    okacc = False
-    why = None
     locs = [setn[o][0].stmt[2] for o in outs]
-    if acc is not None:
-        conj = _conj(acc.stmt[1])
-        want = ('op', '<', ('op', '+', locs[0], locs[1]), None)
-        okacc = any(_is(c, 'op', '<') and c[2] in (('op', '+', locs[0], locs[1]), ('op', '+', locs[1], locs[0])) and
-                    _is(c[3], 'fld') and c[3][2] == 'esum_max' for c in conj) or \
-            any(_is(c, 'op', '<=') and c[2] in (('op', '+', locs[0], locs[1]), ('op', '+', locs[1], locs[0])) and
-                _is(c[3], 'fld') and c[3][2] == 'esum_max' for c in conj)
-        okacc = okacc and any(_is(c, 'op', '<') and 'ptest' in ir.fmt(c) or _is(c, 'op', '<=') and 'ptest' in ir.fmt(c) for c in conj)
-        why = None if okacc else ir.fmt(acc.stmt[1])
-    rep.add('REJECTION', 'accept-in-domain', where(fn, acc.line if acc else None), 'the pair (%s, %s) is delivered only on the arm of a test whose '
-            'conjuncts include ptest < p and e1 + e2 < esum_max, and the delivered values are the tested ones' % tuple(outs),
+    acc = setn[outs[0]][0]
+    # acceptance, whatever the loop form: the outputs are assigned exactly under `ptest < p and e1 + e2 < esum_max`, with the tested
+    # values, and the loop is left exactly then (rules/loopsem.py)
+    from ..rules import loopsem
+    from ..rules.scopes import Locals
+    L = Locals(fn)
+
+    def draws_in(n):
+        return any(x['k'] == 'OpCall' and x.get('op') == '()' and x['callee']['qn'].endswith('i_random::operator()') for x in astu.walk(n))
+    loops_ = [n for n in astu.walk(fn['body']) if n['k'] in ('While', 'For', 'Do') and draws_in(n['body'])]
+    if len(loops_) != 1:
+        rep.cannot_decide('REJECTION', where(fn), 'accept-in-domain: %d loops drawing deviates in %s (the sampling loop may have moved '
+                          'into a helper)' % (len(loops_), fn['name']))
+        return
+    w = loops_[0]
+    deliver = {}
+    domain_ops = []
+
+    def atom_of(e, sem):
+        if e['k'] == 'Bin' and e['op'] in ('<', '<=', '>', '>='):
+            a, b, op = astu.strip_casts(e['a']), astu.strip_casts(e['b']), e['op']
+            while a['k'] == 'Paren':
+                a = astu.strip_casts(a['e'])
+            while b['k'] == 'Paren':
+                b = astu.strip_casts(b['e'])
+            if op in ('>', '>='):
+                a, b, op = b, a, {'>': '<', '>=': '<='}[op]
+            if astu.src(b).endswith('esum_max') and a['k'] == 'Bin' and a['op'] == '+':
+                domain_ops.append(sorted([astu.src(astu.strip_casts(a['a'])), astu.src(astu.strip_casts(a['b']))]))
+                return ('atom', 'e1 + e2 < esum_max')
+            if a['k'] == 'Ref' and b['k'] == 'Ref':
+                return ('atom', '%s < %s' % (a['name'], b['name']))
+        return None
+
+    def on_assign(name, rhs, op, sem):
+        if name in outs and op == '=':
+            deliver.setdefault(name, []).append((sem.pc, astu.src(astu.strip_casts(rhs))))
+
+    def decl_of(i):
+        d = L.decl.get(i)
+        if d is None:
+            return None
+        d = dict(d)
+        d['assigned'] = bool(L.assigns.get(i))
+        return d
+    pre_bool = {}
+    for i_, d_ in L.decl.items():
+        if d_.get('ty', '').strip() == 'bool' and 'init' in d_ and d_.get('l', 0) < w.get('l', 0) and \
+                astu.strip_casts(d_['init'])['k'] == 'Bool':
+            pre_bool[d_['name']] = bool(astu.strip_casts(d_['init'])['v'])
+    sem = loopsem.LoopSem(w, decl_of, atom_of, on_assign, pre_bool)
+    try:
+        leave = sem.run()
+    except AnalysisBroken as ex:
+        rep.cannot_decide('REJECTION', where(fn, w.get('l')), 'accept-in-domain: ' + str(ex))
+        return
+    opaque = [a for f_ in [leave] + [c for v in deliver.values() for c, _ in v] for a in loopsem.atoms(f_)
+              if isinstance(a, str) and a.startswith('opaque:')]
+    if opaque or any(len(v) != 1 for v in deliver.values()) or set(deliver) != set(outs):
+        rep.cannot_decide('REJECTION', where(fn, w.get('l')), 'accept-in-domain: the delivery of (%s, %s) is not one assignment each under '
+                          'conditions this rule interprets (%s)' % (outs[0], outs[1], sorted(set(opaque))[:3]))
+        return
+    conds = [deliver[o][0][0] for o in outs]
+    vals = [deliver[o][0][1] for o in outs]
+    tests = sorted(a for a in loopsem.atoms(conds[0]) if not a.startswith('carried:') and a != 'e1 + e2 < esum_max')
+    expected = ('atom', 'e1 + e2 < esum_max')
+    for a in tests:
+        expected = loopsem.f_and(('atom', a), expected)
+    ok1, cex1 = loopsem.equivalent_loop(sem, conds[0], expected)
+    ok2, cex2 = loopsem.equivalent_loop(sem, conds[1], expected)
+    ok3, cex3 = loopsem.equivalent_loop(sem, leave, expected)
+    okv = bool(domain_ops) and all(sorted(vals) == d for d in domain_ops)
+    okacc = ok1 and ok2 and ok3 and okv and len(tests) >= 1 and 'e1 + e2 < esum_max' in loopsem.atoms(conds[0])
+    why = None
+    if not okacc:
+        why = ['(%s, %s) are assigned when %s / %s' % (outs[0], outs[1], loopsem.show(conds[0]), loopsem.show(conds[1])),
+               'the loop is left when %s' % loopsem.show(leave),
+               'required: exactly when the von Neumann test passes and e1 + e2 < esum_max holds for the delivered values %s (tested: %s)'
+               % (vals, domain_ops)]
+    rep.add('REJECTION', 'accept-in-domain', where(fn, w.get('l')), 'the pair (%s, %s) is delivered, and the loop left, exactly when '
+            'ptest < p and e1 + e2 < esum_max hold, and the delivered values are the tested ones' % tuple(outs),
             okacc and all(l[0] == 'var' for l in locs), why)
     if not (okacc and all(l[0] == 'var' for l in locs)):
         return
